@@ -140,10 +140,17 @@ func (e *omegaEnv) dataLen(v ssa.Value) string {
 // ruleChargeFirst (HC1).
 func (e *omegaEnv) ruleChargeFirst(rule string, exempt map[string]string) {
 	c := e.c
+	inner := e.innerHelpers()
 	for _, f := range e.funcs {
 		key := omegaKey(f)
 		if why, ok := exempt[f.Name()]; ok {
 			c.OK(rule, key, f.Pos(), "exempt: %s", why)
+			continue
+		}
+		if callers, ok := inner[f]; ok {
+			// not a host call but a part of host calls: never used as a value (it cannot be dispatched), and every
+			// caller is a host-call function, which is itself held to "the charge is the first effect"
+			c.OK(rule, key, f.Pos(), "helper of charged host calls (never used as a function value; called only by %s)", strings.Join(callers, ", "))
 			continue
 		}
 		entry := f.Blocks[0]
@@ -238,6 +245,76 @@ func (e *omegaEnv) ruleChargeFirst(rule string, exempt map[string]string) {
 		c.Check(argOK && retOK, rule, key, call.Pos(), "first effect is chargeGasAndCheck(&input); its non-nil result is returned unchanged",
 			"chargeGasAndCheck is not applied to the call's own input, or its out-of-gas result is not returned unchanged")
 	}
+}
+
+// innerHelpers: functions with the host-call signature that are not host calls: nothing in the module uses them as
+// a function value (so no table or dispatcher can reach them) and every static caller is itself a function with
+// the host-call signature. Value: the callers' names.
+func (e *omegaEnv) innerHelpers() map[*ssa.Function][]string {
+	isOmega := map[*ssa.Function]bool{}
+	for _, f := range e.funcs {
+		isOmega[f] = true
+	}
+	asValue := map[*ssa.Function]bool{}
+	callers := map[*ssa.Function]map[*ssa.Function]bool{}
+	for _, g := range e.c.moduleFuncs() {
+		allInstrs(g, func(in ssa.Instruction) {
+			var callee ssa.Value
+			if call, ok := in.(ssa.CallInstruction); ok {
+				callee = call.Common().Value
+				if h := call.Common().StaticCallee(); h != nil && isOmega[h] {
+					if _, isGo := in.(*ssa.Go); isGo {
+						asValue[h] = true
+					}
+					if _, isDefer := in.(*ssa.Defer); isDefer {
+						asValue[h] = true
+					}
+					if callers[h] == nil {
+						callers[h] = map[*ssa.Function]bool{}
+					}
+					callers[h][g] = true
+				}
+			}
+			for _, op := range in.Operands(nil) {
+				if op == nil || *op == nil {
+					continue
+				}
+				v := *op
+				if mc, isMC := v.(*ssa.MakeClosure); isMC {
+					v = mc.Fn
+				}
+				h, isF := v.(*ssa.Function)
+				if !isF || !isOmega[h] || *op == callee {
+					continue
+				}
+				asValue[h] = true
+			}
+			if mc, isMC := in.(*ssa.MakeClosure); isMC {
+				if h, isF := mc.Fn.(*ssa.Function); isF && isOmega[h] {
+					asValue[h] = true
+				}
+			}
+		})
+	}
+	out := map[*ssa.Function][]string{}
+	for _, f := range e.funcs {
+		if asValue[f] || len(callers[f]) == 0 || f.Parent() != nil {
+			continue
+		}
+		ok := true
+		var names []string
+		for g := range callers[f] {
+			if !isOmega[g] {
+				ok = false
+			}
+			names = append(names, g.Name())
+		}
+		if ok {
+			sort.Strings(names)
+			out[f] = names
+		}
+	}
+	return out
 }
 
 // ruleMemoryGuards (HC2/HC3).
